@@ -27,13 +27,19 @@ impl<'a> PrettyPrinter<'a> {
 
         // Split nodes into the prefix and import items parts.
         let import_items_part = &nodes[divider_index..];
-        let prefix_part =
-            if divider_index > 0 && nodes[divider_index - 1].kind() == SyntaxKind::Space {
-                // Remove the trailing space from the prefix.
-                &nodes[..divider_index - 1]
-            } else {
-                &nodes[..divider_index]
-            };
+        // A line comment at the end of the prefix needs the line break that follows it.
+        let ends_with_line_comment = divider_index > 1
+            && nodes[divider_index - 1].kind() == SyntaxKind::Space
+            && nodes[divider_index - 2].kind() == SyntaxKind::LineComment;
+        let prefix_part = if !ends_with_line_comment
+            && divider_index > 0
+            && nodes[divider_index - 1].kind() == SyntaxKind::Space
+        {
+            // Remove the trailing space from the prefix.
+            &nodes[..divider_index - 1]
+        } else {
+            &nodes[..divider_index]
+        };
 
         // Convert the prefix section.
         let prefix_doc = self.convert_flow_like_iter(ctx, prefix_part.iter(), |ctx, child| {
@@ -73,7 +79,11 @@ impl<'a> PrettyPrinter<'a> {
         }
 
         let import_items_doc = self.convert_import_items(ctx, import_items_nodes);
-        prefix_doc + self.arena.space() + import_items_doc
+        if ends_with_line_comment {
+            prefix_doc + import_items_doc
+        } else {
+            prefix_doc + self.arena.space() + import_items_doc
+        }
     }
 
     fn convert_import_items(
